@@ -1,587 +1,378 @@
-(* Invariant of the Event transition system (OneShotEvent + WaitGroup counter) and the facts the C16 theorems are
-   made of.  Everything is proved for every event sequence (schedule), any number of waiters / futures / threads.
-
-   Shape of the invariant:
-     Gb    : boolean, over the global words (count, fired, head, pending setters, SetImpl's progress)
-     Cpart : count = plain units outstanding + futures still counted        (when the rule of use is respected)
-     finv  : boolean, per future
-     wloc  : boolean, per waiter, relative to three global facts about that waiter:
-               hA = the head is all-done, o = occurrences of the waiter in (list at the head ++ SetImpl's todo),
-               ic = SetImpl is inside this waiter's Call
-     Rpart : the recorded observations *)
+(* EventProofs.v - second half of the C16 proofs: the steps of a waiter and of SetImpl on a waiter's job preserve
+   the invariant (EventBase.Inv); then the facts the C16 theorems are made of. *)
 From Coq Require Import List Arith Bool Lia.
 Import ListNotations.
-From YV Require Import model.Event.
+From YV Require Import model.Event proofs.EventBase.
 
-(* ---- lists ------------------------------------------------------------------------------------------ *)
-
-Lemma upd_length {A} i (x : A) l : length (upd i x l) = length l.
-Proof. revert i; induction l; destruct i; simpl; auto. Qed.
-
-Lemma nth_upd_same {A} i (x y : A) l : nth_error l i = Some y -> nth_error (upd i x l) i = Some x.
-Proof. revert i; induction l; destruct i; simpl; intros; try discriminate; auto. Qed.
-
-Lemma nth_upd_other {A} i j (x : A) l : i <> j -> nth_error (upd i x l) j = nth_error l j.
+Lemma gb_not_all s : Gb s = true -> is_all (head s) = false -> todo s = [] /\ incall s = None.
 Proof.
-  revert i j; induction l; destruct i, j; simpl; intros; auto; try congruence.
+  unfold Gb. intros G Ha. rewrite Ha in G. destruct (todo s), (incall s); bsimp; try discriminate; auto.
 Qed.
 
-Lemma nth_some_lt {A} (l : list A) i x : nth_error l i = Some x -> i < length l.
-Proof. intros H. apply nth_error_Some. congruence. Qed.
+Lemma gb_uaf s : Gb s = true -> uaf s = false.
+Proof. unfold Gb. intros G. destruct (uaf s); bsimp; try discriminate; auto. Qed.
 
-Lemma nth_app_new {A} (l : list A) x i y :
-  nth_error (l ++ [x]) i = Some y -> nth_error l i = Some y \/ (i = length l /\ y = x).
-Proof.
-  intros H. destruct (Nat.lt_ge_cases i (length l)).
-  - left. rewrite nth_error_app1 in H; auto.
-  - right. rewrite nth_error_app2 in H; auto.
-    destruct (i - length l) as [|k] eqn:E; simpl in H.
-    + inversion H. split; auto. lia.
-    + destruct k; discriminate.
-Qed.
+Lemma top_all h : top h = HA -> is_all h = true.
+Proof. destruct h as [[|x l]|]; simpl; try discriminate; auto. Qed.
 
-Lemma Forall_upd {A} (P : A -> Prop) i x l : Forall P l -> P x -> Forall P (upd i x l).
-Proof.
-  intros H Hx. revert i. induction H; destruct i; simpl; constructor; auto.
-Qed.
+Lemma hv_eqb_eq a b : hv_eqb a b = true -> a = b.
+Proof. destruct a, b; simpl; try discriminate; auto. intros H. apply Nat.eqb_eq in H. congruence. Qed.
 
-Lemma Forall_nth {A} (P : A -> Prop) l i x : Forall P l -> nth_error l i = Some x -> P x.
-Proof. intros H E. rewrite Forall_forall in H. apply H. eapply nth_error_In; eauto. Qed.
+Lemma inv_wloc s w r : Inv s -> nth_error (ws s) w = Some r ->
+  wloc (is_all (head s)) (occ w (lst s)) (icb (incall s) w) r = true.
+Proof. intros (_ & _ & _ & (W1 & _) & _) Hn. apply W1; auto. Qed.
 
-Lemma Forall_app_one {A} (P : A -> Prop) l x : Forall P l -> P x -> Forall P (l ++ [x]).
-Proof. intros. apply Forall_app. split; auto. Qed.
+Ltac wfields r := destruct r as [k0 p0 rg0 cl0 ed0 wd0 rf0 fr0 rc0]; simpl in *.
 
-Fixpoint occ (w : nat) (l : list nat) : nat :=
-  match l with [] => 0 | x :: r => b2n (Nat.eqb x w) + occ w r end.
-
-Lemma occ_app w a b : occ w (a ++ b) = occ w a + occ w b.
-Proof. induction a; simpl; auto. rewrite IHa. lia. Qed.
-
-Definition sumh (l : list frec) : nat := fold_right (fun r a => b2n (holds r) + a) 0 l.
-
-Lemma sumh_app l x : sumh (l ++ [x]) = sumh l + b2n (holds x).
-Proof. induction l; simpl; auto. lia. Qed.
-
-Lemma sumh_upd l j r x : nth_error l j = Some r -> sumh (upd j x l) + b2n (holds r) = sumh l + b2n (holds x).
-Proof.
-  revert j; induction l; destruct j; simpl; intros H; try discriminate.
-  - inversion H; subst. lia.
-  - specialize (IHl _ H). lia.
-Qed.
-
-Lemma sumh_zero l j r : sumh l = 0 -> nth_error l j = Some r -> holds r = false.
-Proof.
-  revert j; induction l; destruct j; simpl; intros H E; try discriminate.
-  - inversion E; subst. destruct (holds r); simpl in H; auto; lia.
-  - apply (IHl j); auto. lia.
-Qed.
-
-(* ---- the invariant ---------------------------------------------------------------------------------- *)
-
-Definition stk (h : hd) : list nat := match h with Stack l => l | AllDone => [] end.
-Definition lst (s : st) : list nat := stk (head s) ++ todo s.
-Definition icb (ic : option nat) (w : nat) : bool := match ic with Some x => Nat.eqb x w | None => false end.
-
-Definition is_timed (k : wkind) : bool := match k with KTimed => true | _ => false end.
-
-(* facts that need the head to be all-done *)
-Definition needs_all (r : wrec) : bool :=
-  called r || match pc r with WPass | WQueued | WDone => true | _ => false end.
-
-Definition wcore (o : nat) (ic : bool) (r : wrec) : bool :=
-  Nat.eqb o (b2n (reg r && negb (called r))) &&
-  Bool.eqb ic (is_timed (wk r) && called r && negb (edec r)) &&
-  implb (called r) (reg r) &&
-  implb (edec r) (called r && is_timed (wk r)) &&
-  implb (wdec r) (reg r && is_timed (wk r)) &&
-  Nat.eqb (relc r) (match pc r with WDone => 1 | _ => 0 end) &&
-  (if is_timed (wk r) then
-     if reg r then Nat.eqb (refs r + b2n (wdec r) + b2n (edec r)) 2 && Nat.eqb (frees r) (b2n (wdec r && edec r))
-     else Nat.eqb (refs r) 2 && Nat.eqb (frees r) (match pc r with WDone => 1 | _ => 0 end)
-   else Nat.eqb (frees r) 0) &&
-  match pc r with
-  | W0 => negb (reg r)
-  | WTry => negb (reg r) && is_coro (wk r)
-  | WCas _ => negb (reg r)
-  | WPass => negb (reg r)
-  | WParked =>
-      reg r && negb (wdec r) &&
-      match wk r with KBlock | KTimed => true | _ => negb (called r) end
-  | WWoke b => is_timed (wk r) && reg r && negb (wdec r) && implb b (called r)
-  | WDecd b => is_timed (wk r) && reg r && wdec r && implb b (called r)
-  | WQueued => (match wk r with KSticky | KOn => true | _ => false end) && implb (reg r) (called r)
-  | WDone => implb (reg r) (called r) && implb (reg r && is_timed (wk r)) (wdec r)
-  | WTmo => is_timed (wk r) && reg r && wdec r
-  end.
-
-Definition wloc (hA : bool) (o : nat) (ic : bool) (r : wrec) : bool :=
-  wcore o ic r && implb (needs_all r) hA.
-
-Definition Wpart (h : hd) (t : list nat) (ic : option nat) (wl : list wrec) : Prop :=
-  (forall w r, nth_error wl w = Some r -> wloc (is_all h) (occ w (stk h ++ t)) (icb ic w) r = true) /\
-  Forall (fun x => x < length wl) (stk h ++ t) /\
-  (forall x, ic = Some x -> x < length wl).
-
-Definition finv (r : frec) : bool :=
-  match fw r with
-  | WE => (match ap r with A0 | A1 | A2 => true | _ => false end) &&
-          (match pp r with P0 | PStored => true | _ => false end)
-  | WC => (match ap r with AOk => true | _ => false end) &&
-          (match pp r with P0 | PStored => true | _ => false end)
-  | WR => match pp r with
-          | PCb | PCbRel => (match ap r with AOk => true | _ => false end)
-          | PDone => true
-          | _ => false
-          end
-  end &&
-  Bool.eqb (holds r)
-    (match ap r with
-     | A1 | A2 | AFail | AFailRel => true
-     | AOk => (match pp r with PDone => false | _ => true end)
-     | A0 | ADone => false
-     end) &&
-  Bool.eqb (match fval r with None => true | Some _ => false end) (match pp r with P0 => true | _ => false end) &&
-  match fk r with
-  | FAttach => Nat.eqb (frel r) 0 &&
-               (match ap r with AFailRel => false | _ => true end) &&
-               (match pp r with PCbRel => false | _ => true end)
-  | FConsume =>
-      Nat.eqb (frel r)
-        (match ap r, pp r with
-         | AFailRel, _ | ADone, _ => 1
-         | _, PCbRel => 1
-         | AOk, PDone => 1
-         | _, _ => 0
-         end)
-  end.
-
-Definition Gb (s : st) : bool :=
-  implb (is_all (head s)) (fired s) &&
-  (Nat.eqb (pend s) 0 || fired s) &&
-  (broken s || Nat.eqb (pend s + b2n (is_all (head s))) (b2n (fired s))) &&
-  (broken s || negb (fired s) || Nat.eqb (cnt s) 0) &&
-  (is_all (head s) || ((match todo s with [] => true | _ => false end) &&
-                       (match incall s with None => true | _ => false end))) &&
-  (broken s || negb (crash s)) &&
-  negb (uaf s).
-
-Definition Cpart (s : st) : Prop := broken s = false -> cnt s = uu s + sumh (fs s).
-
-Definition rel_ok (x : nat * nat * bool) : Prop := snd (fst x) = 0 /\ snd x = true.
-Definition ready_ok (x : nat * bool * bool) : Prop := snd (fst x) = snd x.
-Definition got_ok (fl : list frec) (x : nat * option nat) : Prop :=
-  snd x = None \/ exists r, nth_error fl (fst x) = Some r /\ fval r = snd x /\ fk r = FAttach /\ fw r = WR.
-
-Definition relcount (w : nat) (l : list (nat * nat * bool)) : nat :=
-  length (filter (fun x => Nat.eqb (fst (fst x)) w) l).
-
-Definition Rpart (s : st) : Prop :=
-  (broken s = false -> Forall rel_ok (rels s)) /\
-  Forall ready_ok (readys s) /\
-  Forall (got_ok (fs s)) (gots s) /\
-  (forall w r, nth_error (ws s) w = Some r -> relcount w (rels s) = relc r) /\
-  (forall x, In x (rels s) -> fst (fst x) < length (ws s)).
-
-Definition Inv (s : st) : Prop :=
-  Gb s = true /\ Cpart s /\ Forall (fun r => finv r = true) (fs s) /\
-  Wpart (head s) (todo s) (incall s) (ws s) /\ Rpart s.
-
-Lemma inv_init n : Inv (init n).
-Proof.
-  unfold Inv. split; [reflexivity|]. split; [unfold Cpart; simpl; lia|]. split; [constructor|].
-  split.
-  - unfold Wpart; simpl. split; [|split].
-    + intros w r H. destruct w; discriminate.
-    + constructor.
-    + intros x H; discriminate.
-  - unfold Rpart; simpl. repeat split; try constructor.
-    + intros w r H. destruct w; discriminate.
-    + intros x [].
-Qed.
-
-(* ---- tactics ---------------------------------------------------------------------------------------- *)
-
-Ltac split_and :=
+Ltac wcases :=
   repeat match goal with
-         | H : _ && _ = true |- _ => apply andb_true_iff in H; destruct H
-         | H : negb _ = true |- _ => apply negb_true_iff in H
-         | H : negb _ = false |- _ => apply negb_false_iff in H
-         | H : Nat.eqb _ _ = true |- _ => apply Nat.eqb_eq in H
-         | H : Bool.eqb _ _ = true |- _ => apply eqb_prop in H
+         | x : wkind |- _ => destruct x; simpl in *; try discriminate
+         | x : wpc |- _ => destruct x; simpl in *; try discriminate
+         | x : bool |- _ => destruct x; simpl in *; try discriminate
          end.
 
-Ltac case_hyp H :=
-  repeat match type of H with
-         | context [match ?x with _ => _ end] => destruct x eqn:?; simpl in H; try discriminate H
-         | context [if ?x then _ else _] => destruct x eqn:?; simpl in H; try discriminate H
-         end.
+Ltac wunfold :=
+  unfold wloc, wcore, needs_all, w_pc, w_release, w_register, w_called, w_called_release, w_decref in *; simpl in *.
 
-Ltac inv_some H := inversion H; subst; clear H.
-
-Lemma occ_bound n l : Forall (fun x => x < n) l -> occ n l = 0.
-Proof.
-  induction 1; simpl; auto. rewrite IHForall.
-  destruct (Nat.eqb x n) eqn:E; simpl; auto. apply Nat.eqb_eq in E. lia.
-Qed.
-
-Lemma relcount_bound n l : (forall x, In x l -> fst (fst x) < n) -> relcount n l = 0.
-Proof.
-  unfold relcount. induction l; simpl; intros H; auto.
-  destruct (Nat.eqb (fst (fst a)) n) eqn:E.
-  - apply Nat.eqb_eq in E. specialize (H a (or_introl eq_refl)). lia.
-  - apply IHl. intros x Hx. apply H. right; auto.
-Qed.
-
-Lemma relcount_app w l x : relcount w (l ++ [x]) = relcount w l + b2n (Nat.eqb (fst (fst x)) w).
-Proof.
-  unfold relcount. rewrite filter_app, app_length. simpl.
-  destruct (Nat.eqb (fst (fst x)) w); simpl; lia.
-Qed.
-
-Lemma icb_bound ic n : (forall x, ic = Some x -> x < n) -> icb ic n = false.
-Proof.
-  destruct ic as [x|]; simpl; auto. intros H. specialize (H x eq_refl).
-  apply Nat.eqb_neq. lia.
-Qed.
-
-(* wloc is monotone in "the head is all-done" *)
-Lemma wloc_mono o ic r : wloc false o ic r = true -> wloc true o ic r = true.
-Proof.
-  unfold wloc. intros H. apply andb_true_iff in H. destruct H as [H _]. rewrite H.
-  destruct (needs_all r); reflexivity.
-Qed.
-
-(* ---- events that create things or move the counter ----------------------------------------------- *)
-
-Lemma got_ok_app fl x g : got_ok fl g -> got_ok (fl ++ [x]) g.
-Proof.
-  intros [H|[r [H1 H2]]]; [left; auto|right]. exists r. split; auto.
-  rewrite nth_error_app1; auto. eapply nth_some_lt; eauto.
-Qed.
-
-Lemma inv_new_w s k s' : Inv s -> step s (ENewW k) = Some s' -> Inv s'.
-Proof.
-  intros (G & C & F & (W1 & W2 & W3) & (R1 & R2 & R3 & R4 & R5)) H. simpl in H. inv_some H.
-  split; [exact G|]. split; [exact C|]. split; [exact F|]. split.
-  - unfold Wpart; simpl. split; [|split].
-    + intros w r Hn. apply nth_app_new in Hn. destruct Hn as [Hn|[-> ->]]; [apply W1; auto|].
-      rewrite occ_bound; auto. rewrite icb_bound; auto.
-      unfold wloc, wcore, needs_all; destruct k; reflexivity.
-    + eapply Forall_impl; [|exact W2]. intros a Ha. simpl in Ha. rewrite app_length. simpl. lia.
-    + intros x Hx. specialize (W3 x Hx). rewrite app_length. simpl. lia.
-  - unfold Rpart; simpl. split; [exact R1|]. split; [exact R2|]. split; [exact R3|]. split.
-    + intros w r Hn. apply nth_app_new in Hn. destruct Hn as [Hn|[-> ->]]; [apply R4; auto|].
-      rewrite relcount_bound by auto. destruct k; reflexivity.
-    + intros x Hx. specialize (R5 x Hx). rewrite app_length. simpl. lia.
-Qed.
-
-Lemma inv_new_f s k s' : Inv s -> step s (ENewF k) = Some s' -> Inv s'.
-Proof.
-  intros (G & C & F & W & (R1 & R2 & R3 & R4 & R5)) H. simpl in H. inv_some H.
-  split; [exact G|]. split.
-  - unfold Cpart in *; simpl. intros Hb. rewrite sumh_app. specialize (C Hb). destruct k; simpl; lia.
-  - split; [apply Forall_app_one; auto; destruct k; reflexivity|]. split; [exact W|].
-    unfold Rpart; simpl. split; [exact R1|]. split; [exact R2|]. split; [|split; [exact R4|exact R5]].
-    eapply Forall_impl; [|exact R3]. intros g Hg. apply got_ok_app; auto.
-Qed.
-
-(* ---- the counter ------------------------------------------------------------------------------------- *)
-
-Ltac bsimp :=
-  simpl in *;
-  repeat (rewrite ?andb_true_r, ?andb_false_r, ?orb_true_r, ?orb_false_r in *; simpl in * ).
-
-Ltac bgoal :=
-  repeat (apply andb_true_iff; split); try reflexivity; try assumption; try (apply Nat.eqb_eq; simpl in *; lia).
-
-Ltac gb_destruct s :=
-  destruct (broken s), (fired s), (is_all (head s)), (crash s), (uaf s), (todo s), (incall s);
-  bsimp; try discriminate; try reflexivity.
-
-Lemma gb_do_add n du s : Gb s = true -> Gb (do_add n du s) = true.
-Proof.
-  unfold Gb, do_add; simpl. intros H. gb_destruct s; split_and; try discriminate; bgoal.
-Qed.
-
-Lemma gb_do_sub n du bad s : Gb s = true -> Gb (do_sub n du bad s) = true.
-Proof.
-  unfold Gb, do_sub; simpl. intros H.
-  destruct (Nat.eqb (cnt s) n) eqn:Eh; [apply Nat.eqb_eq in Eh|].
-  - destruct (Nat.ltb (cnt s) n) eqn:El; [apply Nat.ltb_lt in El; lia|].
-    subst n. rewrite Nat.sub_diag.
-    destruct bad; gb_destruct s; split_and; try discriminate; try lia; bgoal.
-  - destruct (Nat.ltb (cnt s) n) eqn:El;
-    destruct bad; gb_destruct s; split_and; try discriminate; try lia; bgoal.
-Qed.
-
-Lemma gb_user_set s : Gb s = true -> Gb (user_set s) = true.
-Proof.
-  unfold Gb, user_set; simpl. intros H.
-  destruct (Nat.eqb (cnt s) 0) eqn:E; gb_destruct s; split_and; try discriminate; try lia; bgoal.
-Qed.
-
-Lemma broken_do_sub n du bad s : broken (do_sub n du bad s) = false ->
-  broken s = false /\ bad = false /\ n <= cnt s.
-Proof.
-  unfold do_sub; simpl. intros H. repeat (apply orb_false_iff in H; destruct H as [H ?]).
-  repeat split; auto. apply Nat.ltb_ge; auto.
-Qed.
-
-Lemma broken_do_add n du s : broken (do_add n du s) = false -> broken s = false.
-Proof. unfold do_add; simpl. intros H. apply orb_false_iff in H. tauto. Qed.
-
-Lemma rpart_same_obs s s' :
-  Rpart s -> (broken s' = false -> broken s = false) ->
-  rels s' = rels s -> readys s' = readys s -> gots s' = gots s -> ws s' = ws s -> fs s' = fs s -> Rpart s'.
-Proof.
-  intros (R1 & R2 & R3 & R4 & R5) Hb E1 E2 E3 E4 E5. unfold Rpart. rewrite E1, E2, E3, E4, E5.
-  repeat split; auto.
-Qed.
-
-Lemma inv_add s n v s' : Inv s -> step s (EAdd n v) = Some s' -> Inv s'.
-Proof.
-  intros (G & C & F & W & R) H. simpl in H. case_hyp H. inv_some H.
-  split; [apply gb_do_add; auto|]. split.
-  - intros Hb. apply broken_do_add in Hb. specialize (C Hb). simpl. lia.
-  - split; [exact F|]. split; [exact W|].
-    eapply rpart_same_obs; eauto. apply broken_do_add.
-Qed.
-
-Lemma inv_sub s n v s' : Inv s -> step s (ESub n v) = Some s' -> Inv s'.
-Proof.
-  intros (G & C & F & W & R) H. simpl in H. case_hyp H. inv_some H.
-  split; [apply gb_do_sub; auto|]. split.
-  - intros Hb. apply broken_do_sub in Hb. destruct Hb as (Hb & Hbad & Hle). specialize (C Hb). simpl.
-    apply orb_false_iff in Hbad. destruct Hbad as [_ Hu]. apply Nat.ltb_ge in Hu. lia.
-  - split; [exact F|]. split; [exact W|].
-    eapply rpart_same_obs; eauto. intros Hb. apply broken_do_sub in Hb. tauto.
-Qed.
-
-Lemma inv_user_set s s' : Inv s -> step s EUserSet = Some s' -> Inv s'.
-Proof.
-  intros (G & C & F & W & R) H. simpl in H. inv_some H.
-  split; [apply gb_user_set; auto|]. split.
-  - intros Hb. simpl in Hb. apply orb_false_iff in Hb. destruct Hb as [Hb _].
-    apply orb_false_iff in Hb. destruct Hb as [Hb _]. specialize (C Hb). simpl. exact C.
-  - split; [exact F|]. split; [exact W|].
-    eapply rpart_same_obs; eauto. simpl. intros Hb. apply orb_false_iff in Hb. destruct Hb as [Hb _].
-    apply orb_false_iff in Hb. tauto.
-Qed.
-
-(* ---- SetImpl's exchange -------------------------------------------------------------------------------- *)
-
-Lemma inv_xchg s old s' : Inv s -> step s (EXchg old) = Some s' -> Inv s'.
-Proof.
-  intros (G & C & F & (W1 & W2 & W3) & R) H. simpl in H.
-  destruct (pend s) as [|p] eqn:Ep; [discriminate|].
-  destruct (hv_eqb old (top (head s))); [|discriminate].
-  destruct (head s) as [l|] eqn:Eh; inv_some H.
-  - (* the list is taken *)
-    assert (Ht : todo s = [] /\ incall s = None).
-    { unfold Gb in G. rewrite Eh in G. simpl in G. destruct (todo s), (incall s); bsimp; try discriminate; auto. }
-    destruct Ht as [Ht Hi].
-    split.
-    + unfold Gb in *; simpl. rewrite Eh, Ep in G. simpl in G.
-      destruct (broken s), (fired s), (crash s), (uaf s); bsimp; try discriminate; split_and; try discriminate;
-        try lia; bgoal.
-    + split; [exact C|]. split; [exact F|]. split.
-      * unfold Wpart; simpl. rewrite Hi, Ht in *. simpl in *. rewrite app_nil_r in *. split; [|split; auto].
-        intros w r Hn. apply wloc_mono. apply W1; auto.
-      * eapply rpart_same_obs; eauto.
-  - (* the head already was all-done *)
-    split.
-    + unfold Gb in *; simpl. rewrite Eh, Ep in G. simpl in G.
-      destruct (broken s), (fired s), (crash s), (uaf s), (todo s), (incall s); bsimp; try discriminate;
-        split_and; try discriminate; try lia; bgoal.
-    + split; [exact C|]. split; [exact F|]. split; [exact (conj W1 (conj W2 W3))|].
-      eapply rpart_same_obs; eauto.
-Qed.
-
-(* ---- futures ------------------------------------------------------------------------------------------ *)
-
-Lemma got_ok_upd fl j r r' g :
-  nth_error fl j = Some r -> finv r = true ->
-  fk r' = fk r -> (fw r = WR -> fw r' = WR /\ fval r' = fval r) ->
-  got_ok fl g -> got_ok (upd j r' fl) g.
-Proof.
-  intros Hn Hf Hk Hw [H|[r0 (H1 & H2 & H3 & H4)]]; [left; auto|right].
-  destruct (Nat.eq_dec j (fst g)) as [E|Hne].
-  - rewrite <- E in *. rewrite Hn in H1. inv_some H1. exists r'. split; [eapply nth_upd_same; eauto|].
-    destruct (Hw H4) as [Ha Hb]. repeat split; congruence.
-  - exists r0. rewrite nth_upd_other; auto.
-Qed.
-
-Ltac fut_fields r :=
-  destruct r as [fk0 fw0 fa0 fp0 fv0 fr0 fh0]; simpl in *.
-
-(* every step of a future keeps its local invariant, keeps the kind, and never un-completes it *)
-Lemma step_f_local s j r e s' :
-  finv r = true -> nth_error (fs s) j = Some r -> step_f s j r e = Some s' ->
-  exists r', (fs s' = upd j r' (fs s) \/ (fs s' = fs s /\ r' = r)) /\ finv r' = true /\ fk r' = fk r /\
-             (fw r = WR -> fw r' = WR /\ fval r' = fval r) /\
-             ws s' = ws s /\ head s' = head s /\ todo s' = todo s /\ incall s' = incall s /\ rels s' = rels s.
-Proof.
-  intros Hf Hn H. destruct e; simpl in H; try discriminate.
-  all: fut_fields r; case_hyp H; inv_some H; simpl.
-  all: unfold f_holds, f_upd, f_rel, f_store; simpl.
-  all: repeat match goal with
-              | x : fword |- _ => destruct x
-              | x : ppc |- _ => destruct x
-              | x : apc |- _ => destruct x
-              | x : fkind |- _ => destruct x
-              | x : option nat |- _ => destruct x
-              | x : bool |- _ => destruct x
-              end; simpl in *; try discriminate.
-  all: try (eexists; split; [left; reflexivity|]; simpl; bsimp; split_and; subst; try discriminate;
-            repeat split; try reflexivity; try discriminate; auto; fail).
-  all: try (eexists; split; [right; split; reflexivity|]; simpl; repeat split; auto; fail).
-Qed.
-
-Ltac all_fields :=
+(* kind, pc and reg first (they guard the conditionals), then the conjunction is split and the numeric fields are
+   substituted by their values; what remains is closed after destructing the remaining booleans *)
+Ltac wsolve :=
+  wunfold;
   repeat match goal with
-         | x : fword |- _ => destruct x
-         | x : ppc |- _ => destruct x
-         | x : apc |- _ => destruct x
-         | x : fkind |- _ => destruct x
-         | x : option nat |- _ => destruct x
-         | x : bool |- _ => destruct x
-         end; simpl in *; try discriminate.
-
-Ltac pose_sum Hn :=
+         | x : wkind |- _ => destruct x; simpl in *; try discriminate
+         | x : wpc |- _ => destruct x; simpl in *; try discriminate
+         end;
   match goal with
-  | |- context [set_f _ ?x _] => pose proof (sumh_upd _ _ _ x Hn) as Hs; simpl in Hs
-  | |- context [upd _ ?x _] => pose proof (sumh_upd _ _ _ x Hn) as Hs; simpl in Hs
+  | H : context [if ?b then _ else _] |- _ => is_var b; destruct b; simpl in *; try discriminate
   | _ => idtac
-  end.
+  end;
+  split_and; subst; simpl in *; try discriminate;
+  wcases; bsimp; split_and; subst; try discriminate; try lia; bgoal.
 
-Lemma gb_set_f j r s : Gb (set_f j r s) = Gb s.
-Proof. reflexivity. Qed.
-
-Lemma step_f_global s j r e s' :
-  Inv s -> nth_error (fs s) j = Some r -> step_f s j r e = Some s' ->
-  Gb s' = true /\ Cpart s' /\ (broken s' = false -> broken s = false).
-Proof.
-  intros (G & C & F & W & R) Hn H.
-  assert (Hf : finv r = true) by (eapply Forall_nth in F; eauto).
-  destruct e; simpl in H; try discriminate.
-  all: fut_fields r; case_hyp H; inv_some H.
-  all: pose_sum Hn.
-  all: split; [first [apply gb_do_add | apply gb_do_sub | idtac]; exact G|].
-  all: try (split; [|simpl; auto]; intros Hb; simpl in Hb; specialize (C Hb); unfold Cpart in *; simpl in *; lia).
-  - (* EFAdd *)
-    split; [|intros Hb; apply broken_do_add in Hb; exact Hb]. intros Hb. apply broken_do_add in Hb. simpl in Hb. specialize (C Hb).
-    all_fields; bsimp; split_and; try discriminate; simpl in *; lia.
-  - (* EFSubA, attach *)
-    split; [|intros Hb; apply broken_do_sub in Hb; tauto].
-    intros Hb. apply broken_do_sub in Hb. destruct Hb as (Hb & _ & Hle). simpl in Hb, Hle. specialize (C Hb).
-    all_fields; bsimp; split_and; try discriminate; simpl in *; lia.
-  - (* EFSubA, consume *)
-    split; [|intros Hb; apply broken_do_sub in Hb; tauto].
-    intros Hb. apply broken_do_sub in Hb. destruct Hb as (Hb & _ & Hle). simpl in Hb, Hle. specialize (C Hb).
-    all_fields; bsimp; split_and; try discriminate; simpl in *; lia.
-  - (* EFSubP, attach *)
-    split; [|intros Hb; apply broken_do_sub in Hb; tauto].
-    intros Hb. apply broken_do_sub in Hb. destruct Hb as (Hb & _ & Hle). simpl in Hb, Hle. specialize (C Hb).
-    all_fields; bsimp; split_and; try discriminate; simpl in *; lia.
-  - (* EFSubP, consume *)
-    split; [|intros Hb; apply broken_do_sub in Hb; tauto].
-    intros Hb. apply broken_do_sub in Hb. destruct Hb as (Hb & _ & Hle). simpl in Hb, Hle. specialize (C Hb).
-    all_fields; bsimp; split_and; try discriminate; simpl in *; lia.
-Qed.
-
-Lemma step_f_obs s j r e s' :
-  step_f s j r e = Some s' ->
-  (readys s' = readys s /\ gots s' = gots s) \/
-  (exists b, readys s' = readys s ++ [(j, b, b)] /\ gots s' = gots s /\ fs s' = fs s) \/
-  (readys s' = readys s /\ gots s' = gots s ++ [(j, rd r)] /\ fk r = FAttach /\ fs s' = fs s).
-Proof.
-  intros H. destruct e; simpl in H; try discriminate.
-  all: case_hyp H; inv_some H; simpl; auto.
-  - right; left. apply eqb_prop in Heqb0. subst b. eexists; repeat split.
-  - right; right. repeat split; auto.
-Qed.
-
-Lemma rd_some r x : rd r = Some x -> fw r = WR /\ fval r = Some x.
-Proof. unfold rd. destruct (fw r), (frel r); try discriminate; auto. Qed.
-
-Lemma inv_step_f s j r e s' :
-  Inv s -> nth_error (fs s) j = Some r -> step_f s j r e = Some s' -> Inv s'.
-Proof.
-  intros I Hn H.
-  destruct (step_f_global _ _ _ _ _ I Hn H) as (G' & C' & Hmono).
-  destruct I as (G & C & F & W & (R1 & R2 & R3 & R4 & R5)).
-  assert (Hf : finv r = true) by (eapply Forall_nth in F; eauto).
-  destruct (step_f_local _ _ _ _ _ Hf Hn H) as (r' & Hfs & Hf' & Hk & Hw & E1 & E2 & E3 & E4 & E5).
-  split; [exact G'|]. split; [exact C'|]. split.
-  { destruct Hfs as [->|[-> _]]; [apply Forall_upd; auto|exact F]. }
-  split; [rewrite E1, E2, E3, E4; exact W|].
-  unfold Rpart. rewrite E1, E5.
-  split; [intros Hb; apply R1; auto|].
-  assert (R3' : Forall (got_ok (fs s')) (gots s)).
-  { destruct Hfs as [->|[-> _]]; [|exact R3].
-    eapply Forall_impl; [|exact R3]. intros g Hg. eapply got_ok_upd; eauto. }
-  destruct (step_f_obs _ _ _ _ _ H) as [[-> ->]|[[b (-> & -> & _)]|(-> & -> & Hka & Efs)]].
-  - repeat split; auto.
-  - repeat split; auto. apply Forall_app_one; auto. reflexivity.
-  - repeat split; auto. apply Forall_app_one; auto.
-    destruct (rd r) as [x|] eqn:Er; [right|left; reflexivity].
-    apply rd_some in Er. destruct Er as [Ew Ev]. exists r. rewrite Efs. simpl. repeat split; auto.
-Qed.
-
-(* ---- waiters: the frame ------------------------------------------------------------------------------
-   Every step of waiter w (or of SetImpl on waiter w's job) produces a state of this shape; the obligations are
-   about w alone. *)
-
-Definition wstate (s : st) (h' : hd) (t' : list nat) (ic' : option nat) (w : nat) (r' : wrec) (u' : bool)
-                  (rl' : list (nat * nat * bool)) : st :=
-  {| cnt := cnt s; uu := uu s; fired := fired s; broken := broken s; crash := crash s; uaf := u';
-     head := h'; pend := pend s; todo := t'; incall := ic'; ws := upd w r' (ws s); fs := fs s;
-     rels := rl'; readys := readys s; gots := gots s |}.
-
-Lemma gb_all_zero s : Gb s = true -> is_all (head s) = true -> broken s = false -> cnt s = 0 /\ fired s = true.
-Proof.
-  unfold Gb. intros G Ha Hb. rewrite Ha, Hb in G. destruct (fired s); bsimp; try discriminate.
-  split_and. auto.
-Qed.
-
-Lemma inv_w_frame s w r h' t' ic' r' u' rl' :
+(* a step that changes nothing but waiter w's record (and the records of observations) *)
+Lemma inv_w_local s w r r' u' rl' :
   Inv s -> nth_error (ws s) w = Some r ->
-  is_all h' = is_all (head s) ->
-  (forall w0, w0 <> w -> occ w0 (stk h' ++ t') = occ w0 (lst s)) ->
-  (forall w0, w0 <> w -> icb ic' w0 = icb (incall s) w0) ->
-  wloc (is_all h') (occ w (stk h' ++ t')) (icb ic' w) r' = true ->
-  Forall (fun x => x < length (ws s)) (stk h' ++ t') ->
-  (forall x, ic' = Some x -> x < length (ws s)) ->
-  (is_all h' = false -> t' = [] /\ ic' = None) ->
+  wloc (is_all (head s)) (occ w (lst s)) (icb (incall s) w) r' = true ->
   u' = false ->
   (rl' = rels s /\ relc r' = relc r) \/
   (rl' = rels s ++ [(w, cnt s, fired s)] /\ relc r' = S (relc r) /\ is_all (head s) = true) ->
-  Inv (wstate s h' t' ic' w r' u' rl').
+  Inv (wstate s (head s) (todo s) (incall s) w r' u' rl').
 Proof.
-  intros (G & C & F & (W1 & W2 & W3) & (R1 & R2 & R3 & R4 & R5)) Hn Ha Ho Hi Hd He1 He2 Hf Hu Hr.
-  assert (Hlt : w < length (ws s)) by (eapply nth_some_lt; eauto).
-  split.
-  { unfold Gb in *; simpl. rewrite Ha, Hu.
-    destruct (is_all (head s)) eqn:Eh.
-    - destruct (fired s), (broken s), (crash s), (uaf s); bsimp; try discriminate; auto.
-    - rewrite <- Ha in Hf. destruct (Hf Ha) as [-> ->]. rewrite Ha in G. clear Hf.
-      destruct (fired s), (broken s), (crash s), (uaf s), (todo s), (incall s); bsimp; try discriminate; auto. }
-  split; [exact C|]. split; [exact F|]. split.
-  { unfold Wpart; simpl. rewrite upd_length. split; [|split; auto].
-    intros w0 r0 Hn0. destruct (Nat.eq_dec w0 w) as [->|Hne].
-    - erewrite nth_upd_same in Hn0; eauto. inv_some Hn0. exact Hd.
-    - rewrite nth_upd_other in Hn0; auto. rewrite Ha, Ho, Hi; auto. apply W1; auto. }
-  unfold Rpart; simpl. rewrite upd_length.
-  destruct Hr as [[-> Hrc]|(-> & Hrc & Hall)].
-  - split; [exact R1|]. split; [exact R2|]. split; [exact R3|]. split; [|exact R5].
-    intros w0 r0 Hn0. destruct (Nat.eq_dec w0 w) as [->|Hne].
-    + erewrite nth_upd_same in Hn0; eauto. inv_some Hn0. rewrite Hrc. apply R4; auto.
-    + rewrite nth_upd_other in Hn0; auto.
-  - split; [|split; [exact R2|split; [exact R3|split]]].
-    + intros Hb. apply Forall_app_one; auto. destruct (gb_all_zero _ G Hall Hb). split; simpl; auto.
-    + intros w0 r0 Hn0. rewrite relcount_app. simpl. destruct (Nat.eq_dec w0 w) as [->|Hne].
-      * erewrite nth_upd_same in Hn0; eauto. inv_some Hn0. rewrite Hrc, Nat.eqb_refl. rewrite (R4 _ _ Hn). simpl. lia.
-      * rewrite nth_upd_other in Hn0; auto. rewrite (R4 _ _ Hn0).
-        replace (Nat.eqb w w0) with false; [simpl; lia|]. symmetry. apply Nat.eqb_neq. auto.
-    + intros x Hx. apply in_app_or in Hx. destruct Hx as [Hx|[<-|[]]]; auto.
+  intros I Hn Hd Hu Hr. pose proof I as (G & _ & _ & (_ & W2 & W3) & _).
+  eapply inv_w_frame; eauto.
+  apply gb_not_all; auto.
 Qed.
+
+Lemma obs_all v h : hv_eqb v (top h) = true -> v = HA -> is_all h = true.
+Proof. intros H ->. apply hv_eqb_eq in H. apply top_all; auto. Qed.
+
+Lemma wloc_all hA o ic r : wloc hA o ic r = true -> needs_all r = true -> hA = true.
+Proof.
+  unfold wloc. intros H Hn. apply andb_true_iff in H. destruct H as [_ H]. rewrite Hn in H.
+  destruct hA; auto.
+Qed.
+
+(* abstract the three global facts about w, forget the state *)
+Ltac abstract_globals s w :=
+  generalize dependent (occ w (lst s)); generalize dependent (icb (incall s) w);
+  generalize dependent (is_all (head s)); clear s.
+
+Lemma inv_ready_chk s w r v s' :
+  Inv s -> nth_error (ws s) w = Some r -> step_w s w r (EReadyChk w v) = Some s' -> Inv s'.
+Proof.
+  intros I Hn H. pose proof (inv_wloc _ _ _ I Hn) as Hw. pose proof (gb_uaf s (proj1 I)) as Hu. simpl in H.
+  destruct (is_coro (wk r) && hv_eqb v (top (head s))) eqn:Eg; [|discriminate].
+  apply andb_true_iff in Eg. destruct Eg as [Ek Ev]. pose proof (obs_all _ _ Ev) as Ha. clear Ev.
+  destruct (pc r) eqn:Ep; try discriminate. inv_some H.
+  apply (inv_w_local s w r _ _ (rels s)); auto.
+  clear I Hn Hu. abstract_globals s w. intros hA Ha ic o Hw.
+  wfields r; subst; destruct v; try (specialize (Ha eq_refl)); wsolve.
+Qed.
+
+Lemma inv_try_ld s w r v s' :
+  Inv s -> nth_error (ws s) w = Some r -> step_w s w r (ETryLd w v) = Some s' -> Inv s'.
+Proof.
+  intros I Hn H. pose proof (inv_wloc _ _ _ I Hn) as Hw. pose proof (gb_uaf s (proj1 I)) as Hu. simpl in H.
+  destruct (hv_eqb v (top (head s))) eqn:Ev; [|discriminate]. pose proof (obs_all _ _ Ev) as Ha. clear Ev.
+  destruct (pc r) eqn:Ep; try discriminate; destruct (is_coro (wk r)) eqn:Ek; try discriminate; inv_some H.
+  all: apply (inv_w_local s w r _ _ (rels s)); auto.
+  all: clear I Hn Hu; abstract_globals s w; intros hA Ha ic o Hw.
+  all: wfields r; subst; destruct v; try (specialize (Ha eq_refl)); wsolve.
+Qed.
+
+Lemma occ_cons_other w0 w l : w0 <> w -> occ w0 (w :: l) = occ w0 l.
+Proof. intros H. simpl. replace (Nat.eqb w w0) with false; auto. symmetry. apply Nat.eqb_neq. auto. Qed.
+
+Lemma occ_cons_same w l : occ w (w :: l) = S (occ w l).
+Proof. simpl. rewrite Nat.eqb_refl. reflexivity. Qed.
+
+Lemma inv_try_cas s w r a s' :
+  Inv s -> nth_error (ws s) w = Some r -> step_w s w r (ETryCas w a) = Some s' -> Inv s'.
+Proof.
+  intros I Hn H. pose proof (inv_wloc _ _ _ I Hn) as Hw. pose proof (gb_uaf s (proj1 I)) as Hu. simpl in H.
+  destruct (pc r) eqn:Ep; try discriminate.
+  destruct (hv_eqb a (HJ w)) eqn:Es.
+  - (* success: push *)
+    destruct (head s) as [l|] eqn:Eh; [|discriminate].
+    destruct (hv_eqb (top (Stack l)) e); [|discriminate]. inv_some H.
+    pose proof I as (G & _ & _ & (_ & W2 & W3) & _).
+    change (Inv (wstate s (Stack (w :: l)) (todo s) (incall s) w (w_register r) (uaf s) (rels s))).
+    eapply inv_w_frame; eauto.
+    + rewrite Eh. reflexivity.
+    + intros w0 Hne. unfold lst. rewrite Eh. simpl stk. rewrite <- app_comm_cons. apply occ_cons_other; auto.
+    + unfold lst in Hw. rewrite Eh in Hw. simpl stk in *. rewrite <- app_comm_cons, occ_cons_same.
+      clear I Hn Hu G W2 W3. simpl is_all in *. generalize dependent (occ w (l ++ todo s)).
+      generalize dependent (icb (incall s) w). clear Eh s. intros ic o Hw.
+      wfields r; subst; wsolve.
+    + rewrite Eh in W2. simpl stk in *. rewrite <- app_comm_cons. constructor; auto. eapply nth_some_lt; eauto.
+    + intros _. apply gb_not_all; auto. rewrite Eh. reflexivity.
+  - (* failure: expected is refreshed *)
+    destruct (hv_eqb a (top (head s))) eqn:Ev; [|discriminate]. pose proof (obs_all _ _ Ev) as Ha. clear Ev.
+    inv_some H.
+    apply (inv_w_local s w r _ _ (rels s)); auto.
+    clear I Hn Hu Es. abstract_globals s w. intros hA Ha ic o Hw.
+    wfields r; subst; destruct a; try (specialize (Ha eq_refl)); wsolve.
+Qed.
+
+(* the obligations of a local step, once the three global facts are abstracted *)
+Ltac local_d I Hn Hu s w r :=
+  clear I Hn Hu; abstract_globals s w; intros hA ic o Hw; wfields r; subst; wsolve.
+
+Ltac rel_right Hw :=
+  right; split; [reflexivity|split; [reflexivity|]];
+  eapply wloc_all; [exact Hw|]; unfold needs_all; simpl;
+  repeat match goal with H : _ = _ |- _ => rewrite H end; simpl; auto using orb_true_r.
+
+Lemma inv_ret s w r s' :
+  Inv s -> nth_error (ws s) w = Some r -> step_w s w r (ERet w) = Some s' -> Inv s'.
+Proof.
+  intros I Hn H. pose proof (inv_wloc _ _ _ I Hn) as Hw. pose proof (gb_uaf s (proj1 I)) as Hu. simpl in H.
+  case_hyp H; inv_some H.
+  all: apply (inv_w_local s w r _ _ _ I Hn); [| exact Hu | rel_right Hw].
+  all: local_d I Hn Hu s w r.
+Qed.
+
+Lemma inv_self_submit s w r s' :
+  Inv s -> nth_error (ws s) w = Some r -> step_w s w r (ESelfSubmit w) = Some s' -> Inv s'.
+Proof.
+  intros I Hn H. pose proof (inv_wloc _ _ _ I Hn) as Hw. pose proof (gb_uaf s (proj1 I)) as Hu. simpl in H.
+  case_hyp H; inv_some H.
+  apply (inv_w_local s w r _ _ (rels s) I Hn); [| exact Hu | left; split; reflexivity].
+  local_d I Hn Hu s w r.
+Qed.
+
+Lemma inv_tmo s w r s' :
+  Inv s -> nth_error (ws s) w = Some r -> step_w s w r (ETmo w) = Some s' -> Inv s'.
+Proof.
+  intros I Hn H. pose proof (inv_wloc _ _ _ I Hn) as Hw. pose proof (gb_uaf s (proj1 I)) as Hu. simpl in H.
+  case_hyp H; inv_some H.
+  apply (inv_w_local s w r _ _ (rels s) I Hn); [| exact Hu | left; split; reflexivity].
+  local_d I Hn Hu s w r.
+Qed.
+
+Lemma inv_run_w s w r s' :
+  Inv s -> nth_error (ws s) w = Some r -> step_w s w r (ERun w) = Some s' -> Inv s'.
+Proof.
+  intros I Hn H. pose proof (inv_wloc _ _ _ I Hn) as Hw. pose proof (gb_uaf s (proj1 I)) as Hu. simpl in H.
+  case_hyp H; inv_some H.
+  apply (inv_w_local s w r _ _ _ I Hn); [| exact Hu | rel_right Hw].
+  local_d I Hn Hu s w r.
+Qed.
+
+(* a timed waiter of which somebody still holds a reference has not been destroyed *)
+Lemma timed_alive hA o ic r :
+  wloc hA o ic r = true -> wk r = KTimed -> reg r = true -> wdec r = false \/ edec r = false -> frees r = 0.
+Proof.
+  intros Hw Hk Hr Hc. wfields r. subst. destruct Hc as [->| ->]; wsolve.
+Qed.
+
+Lemma parked_alive hA o ic r :
+  wloc hA o ic r = true -> wk r = KTimed -> (pc r = WParked \/ exists b, pc r = WWoke b) -> frees r = 0.
+Proof.
+  intros Hw Hk Hc. eapply timed_alive; eauto.
+  - wfields r; subst. destruct Hc as [->|[b ->]]; wunfold; destruct rg0; bsimp; split_and; try discriminate; auto.
+  - left. wfields r; subst. destruct Hc as [->|[b ->]]; wunfold; destruct rg0, wd0; bsimp; split_and; try discriminate; auto.
+Qed.
+
+Lemma inv_twake s w r b s' :
+  Inv s -> nth_error (ws s) w = Some r -> step_w s w r (ETWake w b) = Some s' -> Inv s'.
+Proof.
+  intros I Hn H. pose proof (inv_wloc _ _ _ I Hn) as Hw. pose proof (gb_uaf s (proj1 I)) as Hu. simpl in H.
+  case_hyp H; inv_some H. apply eqb_prop in Heqb0.
+  assert (Hfr : frees r = 0).
+  { eapply parked_alive; eauto. }
+  apply (inv_w_local s w r _ _ (rels s) I Hn); [| simpl; rewrite Hu, Hfr; reflexivity | left; split; reflexivity].
+  clear Hfr. local_d I Hn Hu s w r.
+Qed.
+
+Lemma inv_dec_w s w r old s' :
+  Inv s -> nth_error (ws s) w = Some r -> step_w s w r (EDecW w old) = Some s' -> Inv s'.
+Proof.
+  intros I Hn H. pose proof (inv_wloc _ _ _ I Hn) as Hw. pose proof (gb_uaf s (proj1 I)) as Hu. simpl in H.
+  case_hyp H; inv_some H.
+  assert (Hfr : frees r = 0).
+  { eapply parked_alive; eauto. }
+  apply (inv_w_local s w r _ _ (rels s) I Hn); [| simpl; rewrite Hu, Hfr; reflexivity | left; split; reflexivity].
+  clear Hfr Heqb0. local_d I Hn Hu s w r.
+Qed.
+
+(* ---- SetImpl calling the jobs ----------------------------------------------------------------------------- *)
+
+Lemma occ_mid w a rest : occ w (a ++ w :: rest) = S (occ w (a ++ rest)).
+Proof. rewrite !occ_app, occ_cons_same. lia. Qed.
+
+Lemma occ_mid_other w0 w a rest : w0 <> w -> occ w0 (a ++ w :: rest) = occ w0 (a ++ rest).
+Proof. intros H. rewrite !occ_app, occ_cons_other; auto. Qed.
+
+Lemma Forall_mid {A} (P : A -> Prop) a x rest : Forall P (a ++ x :: rest) -> Forall P (a ++ rest) /\ P x.
+Proof.
+  intros H. apply Forall_app in H. destruct H as [H1 H2]. inversion H2; subst. split; auto.
+  apply Forall_app; auto.
+Qed.
+
+Lemma icb_some_other w w0 : w0 <> w -> icb (Some w) w0 = false.
+Proof. intros H. simpl. apply Nat.eqb_neq. auto. Qed.
+
+Lemma inv_call s w r s' :
+  Inv s -> nth_error (ws s) w = Some r -> step_w s w r (ECall w) = Some s' -> Inv s'.
+Proof.
+  intros I Hn H. pose proof (inv_wloc _ _ _ I Hn) as Hw. pose proof (gb_uaf s (proj1 I)) as Hu. simpl in H.
+  destruct (todo s) as [|x rest] eqn:Et; [discriminate|].
+  destruct (incall s) eqn:Ei; [discriminate|].
+  destruct (Nat.eqb x w) eqn:Ex; [|discriminate]. apply Nat.eqb_eq in Ex. subst x.
+  pose proof I as (G & _ & _ & (_ & W2 & W3) & _).
+  assert (Hall : is_all (head s) = true).
+  { destruct (is_all (head s)) eqn:E; auto. destruct (gb_not_all _ G E) as [E1 _]. congruence. }
+  unfold lst in Hw. rewrite Et, Hall, occ_mid in Hw. simpl icb in Hw.
+  rewrite Et in W2. apply Forall_mid in W2. destruct W2 as [W2 Hlt].
+  assert (Hfr : wk r = KTimed -> frees r = 0).
+  { intros Hk. eapply timed_alive; eauto.
+    - wfields r; subst. wunfold. destruct rg0; bsimp; split_and; try discriminate; auto.
+    - right. wfields r; subst. wunfold. destruct rg0, cl0, ed0; bsimp; split_and; try discriminate; auto. }
+  destruct (wk r) eqn:Ek; inv_some H.
+  - change (Inv (wstate s (head s) rest None w (w_called (pc r) r) (uaf s) (rels s))).
+    eapply inv_w_frame; eauto.
+    + intros w0 Hne. unfold lst. rewrite Et. apply eq_sym, occ_mid_other; auto.
+    + intros w0 Hne. rewrite Ei. reflexivity.
+    + rewrite Hall. simpl icb. clear I Hn Hu G W3 Hfr Hlt W2. generalize dependent (occ w (stk (head s) ++ rest)).
+      clear Et Ei Hall s. intros o Hw. wfields r; subst; wsolve.
+    + intros x Hx; discriminate.
+    + intros E. congruence.
+  - change (Inv (wstate s (head s) rest (Some w) w (w_called (pc r) r) (uaf s || Nat.ltb 0 (frees r)) (rels s))).
+    eapply inv_w_frame; eauto.
+    + intros w0 Hne. unfold lst. rewrite Et. apply eq_sym, occ_mid_other; auto.
+    + intros w0 Hne. rewrite Ei. apply icb_some_other; auto.
+    + rewrite Hall. simpl icb. rewrite Nat.eqb_refl.
+      clear I Hn Hu G W3 Hfr Hlt W2. generalize dependent (occ w (stk (head s) ++ rest)).
+      clear Et Ei Hall s. intros o Hw. wfields r; subst; wsolve.
+    + intros x Hx. inv_some Hx. auto.
+    + intros E. congruence.
+    + rewrite Hu, Hfr; auto.
+  - change (Inv (wstate s (head s) rest None w (w_called_release r) (uaf s) (rels s ++ [(w, cnt s, fired s)]))).
+    eapply inv_w_frame; eauto.
+    + intros w0 Hne. unfold lst. rewrite Et. apply eq_sym, occ_mid_other; auto.
+    + intros w0 Hne. rewrite Ei. reflexivity.
+    + rewrite Hall. simpl icb. clear I Hn Hu G W3 Hfr Hlt W2. generalize dependent (occ w (stk (head s) ++ rest)).
+      clear Et Ei Hall s. intros o Hw. wfields r; subst; wsolve.
+    + intros x Hx; discriminate.
+    + intros E. congruence.
+  - change (Inv (wstate s (head s) rest None w (w_called WQueued r) (uaf s) (rels s))).
+    eapply inv_w_frame; eauto.
+    + intros w0 Hne. unfold lst. rewrite Et. apply eq_sym, occ_mid_other; auto.
+    + intros w0 Hne. rewrite Ei. reflexivity.
+    + rewrite Hall. simpl icb. clear I Hn Hu G W3 Hfr Hlt W2. generalize dependent (occ w (stk (head s) ++ rest)).
+      clear Et Ei Hall s. intros o Hw. wfields r; subst; wsolve.
+    + intros x Hx; discriminate.
+    + intros E. congruence.
+  - change (Inv (wstate s (head s) rest None w (w_called WQueued r) (uaf s) (rels s))).
+    eapply inv_w_frame; eauto.
+    + intros w0 Hne. unfold lst. rewrite Et. apply eq_sym, occ_mid_other; auto.
+    + intros w0 Hne. rewrite Ei. reflexivity.
+    + rewrite Hall. simpl icb. clear I Hn Hu G W3 Hfr Hlt W2. generalize dependent (occ w (stk (head s) ++ rest)).
+      clear Et Ei Hall s. intros o Hw. wfields r; subst; wsolve.
+    + intros x Hx; discriminate.
+    + intros E. congruence.
+  - change (Inv (wstate s (head s) rest None w (w_called_release r) (uaf s) (rels s ++ [(w, cnt s, fired s)]))).
+    eapply inv_w_frame; eauto.
+    + intros w0 Hne. unfold lst. rewrite Et. apply eq_sym, occ_mid_other; auto.
+    + intros w0 Hne. rewrite Ei. reflexivity.
+    + rewrite Hall. simpl icb. clear I Hn Hu G W3 Hfr Hlt W2. generalize dependent (occ w (stk (head s) ++ rest)).
+      clear Et Ei Hall s. intros o Hw. wfields r; subst; wsolve.
+    + intros x Hx; discriminate.
+    + intros E. congruence.
+Qed.
+
+Lemma inv_dec_e s w r old s' :
+  Inv s -> nth_error (ws s) w = Some r -> step_w s w r (EDecE w old) = Some s' -> Inv s'.
+Proof.
+  intros I Hn H. pose proof (inv_wloc _ _ _ I Hn) as Hw. pose proof (gb_uaf s (proj1 I)) as Hu. simpl in H.
+  destruct (incall s) as [x|] eqn:Ei; [|discriminate].
+  destruct (wk r) eqn:Ek; try discriminate.
+  destruct (Nat.eqb x w && Nat.eqb old (refs r)) eqn:Eg; [|discriminate].
+  apply andb_true_iff in Eg. destruct Eg as [Ex Eo]. apply Nat.eqb_eq in Ex. subst x. inv_some H.
+  pose proof I as (G & _ & _ & (_ & W2 & W3) & _).
+  assert (Hall : is_all (head s) = true).
+  { destruct (is_all (head s)) eqn:E; auto. destruct (gb_not_all _ G E) as [_ E1]. congruence. }
+  simpl icb in Hw. rewrite Nat.eqb_refl, Hall in Hw.
+  assert (Hfr : frees r = 0).
+  { eapply timed_alive; eauto.
+    - wfields r; subst. wunfold. destruct rg0, cl0; bsimp; split_and; try discriminate; auto.
+    - right. wfields r; subst. wunfold. destruct rg0, cl0, ed0; bsimp; split_and; try discriminate; auto. }
+  change (Inv (wstate s (head s) (todo s) None w (w_decref true (pc r) r) (uaf s || Nat.ltb 0 (frees r)) (rels s))).
+  eapply inv_w_frame; eauto.
+  - intros w0 Hne. rewrite Ei. apply eq_sym, icb_some_other; auto.
+  - rewrite Hall. simpl icb. clear I Hn Hu G W2 W3 Hfr Eo. change (stk (head s) ++ todo s) with (lst s).
+    generalize dependent (occ w (lst s)). clear Ei Hall s. intros o Hw. wfields r; subst; wsolve.
+  - intros x Hx; discriminate.
+  - intros E. congruence.
+  - rewrite Hu, Hfr; auto.
+Qed.
+
+(* ---- the invariant holds in every reachable state ---------------------------------------------------- *)
+
+Lemma inv_step_w s w r e s' :
+  Inv s -> nth_error (ws s) w = Some r -> ev_w e = Some w -> step_w s w r e = Some s' -> Inv s'.
+Proof.
+  intros I Hn He H. destruct e; simpl in He; try discriminate; inv_some He.
+  - eapply inv_call; eauto.
+  - eapply inv_dec_e; eauto.
+  - eapply inv_run_w; eauto.
+  - eapply inv_ready_chk; eauto.
+  - eapply inv_try_ld; eauto.
+  - eapply inv_try_cas; eauto.
+  - eapply inv_ret; eauto.
+  - eapply inv_self_submit; eauto.
+  - eapply inv_twake; eauto.
+  - eapply inv_dec_w; eauto.
+  - eapply inv_tmo; eauto.
+Qed.
+
+Theorem inv_step s e s' : Inv s -> step s e = Some s' -> Inv s'.
+Proof.
+  intros I H. destruct e.
+  - eapply inv_new_w; eauto.
+  - eapply inv_new_f; eauto.
+  - eapply inv_add; eauto.
+  - eapply inv_sub; eauto.
+  - eapply inv_user_set; eauto.
+  - eapply inv_xchg; eauto.
+  all: unfold step in H; simpl ev_w in H; simpl ev_f in H;
+    match type of H with
+    | match nth_error (ws s) ?w with _ => _ end = _ =>
+        destruct (nth_error (ws s) w) as [r|] eqn:Hn; [|discriminate];
+        eapply inv_step_w; eauto; reflexivity
+    | match nth_error (fs s) ?j with _ => _ end = _ =>
+        destruct (nth_error (fs s) j) as [r|] eqn:Hn; [|discriminate];
+        eapply inv_step_f; eauto
+    end.
+Qed.
+
+Theorem inv_run tr : forall s s', Inv s -> run s tr = Some s' -> Inv s'.
+Proof.
+  induction tr as [|e tr IH]; simpl; intros s s' I H.
+  - inv_some H. exact I.
+  - destruct (step s e) as [s1|] eqn:E; [|discriminate]. eapply IH; [|exact H]. eapply inv_step; eauto.
+Qed.
+
+Theorem inv_reach n tr s : run (init n) tr = Some s -> Inv s.
+Proof. apply inv_run. apply inv_init. Qed.
